@@ -320,11 +320,51 @@ def r5(run):
             run.floor("400 responses in %s" % fn, n400, 1, hb.sp)
 
 
+def r7(run):
+    """Both renderings of GET / serialise the frame itself with serde_json (same fields, same frame)."""
+    hb = None
+    for b in run.facts.bodies_under("xs::api::handle_stream_cat"):
+        if b.kind == "Closure" and not b.is_coroutine and [c for c in b.calls() if c.fn.startswith("serde_json::ser::")]:
+            hb = b
+    if hb is None:
+        run.missing("xs::api::handle_stream_cat|render-closure", "rendering closure (serde_json) of handle_stream_cat not found")
+        return
+    run.touch(hb)
+    arms = {}
+    for bb, si in hb.switches():
+        if si["kind"] == "variant" and si.get("adt", "").endswith("AcceptType"):
+            for (t, lab, m) in si["edges"]:
+                if isinstance(m, str):
+                    arms[m] = (bb, t, lab)
+    run.ob("xs::api::handle_stream_cat|renderings", set(arms) >= {"Ndjson", "EventStream"}, hb.sp, "both renderings are handled: %s" % sorted(arms), reason="rendering-missing")
+    for name, e in arms.items():
+        reg = {x for x in hb.reachable_blocks([e[1]]) if q.dominated(hb, x, via_edges=[e])}
+        sers = [c for c in hb.calls() if c.bb in reg and c.fn in ("serde_json::ser::to_vec", "serde_json::ser::to_string")]
+        whole = [c for c in sers if strip(c.arg(0))[0] == "arg" or (strip(c.arg(0))[0] in ("local", "arg") )]
+        run.ob("xs::api::handle_stream_cat|render|%s" % name, len(sers) == 1 and len(whole) == 1, hb.sp,
+               "the %s rendering is serde_json of the whole frame handed to the closure (%s)" % (name, [fmt(strip(c.arg(0))) for c in sers]), reason="rendering-differs-from-frame")
+    # the stream rendered is exactly store.read(options) with the route's options
+    cb = None
+    for b in run.facts.bodies_under("xs::api::handle_stream_cat"):
+        if b.is_coroutine and q.live_calls(b, C.READ):
+            cb = b
+    if cb is not None:
+        run.touch(cb)
+        rd = q.live_calls(cb, C.READ)[0]
+        a = strip(rd.arg(1))
+        run.ob("xs::api::handle_stream_cat|options-unmodified", a[0] == "field" and a[1][0] == "env" and a[2] == "options", rd.sp,
+               "the route's ReadOptions are handed to Store::read unchanged: %s" % fmt(a), reason="options-rewritten")
+        adaptors = [c.fn.split("::")[-1] for c in cb.calls() if c.bb in cb.live_blocks() and "StreamExt" in c.fn]
+        run.ob("xs::api::handle_stream_cat|no-filtering", adaptors == ["map"], cb.sp, "the receiver stream is only mapped (rendered), never filtered / limited again: %s" % adaptors,
+               reason="http-stream-differs-from-store")
+
+
 RULES = [
     ("R-C13-1", "every value returned by api::handle comes from a responder or the final error->500 mapping; no `?` in handle", r1),
     ("R-C13-2", "every panic-capable site of the request-decoding layer is infallible serialisation, prefix-guarded, or individually exempted", r2),
     ("R-C13-3", "every payload field of every Routes variant is forwarded, and every handler parameter reaches a store operation or branch", r3),
     ("R-C13-4", "listener_loop: one spawned task per connection, the loop ends only on accept errors", r4),
     ("R-C13-5", "append / import are reached only through the Ok edge of the request decoding; nothing after a 400", r5),
+    ("R-C13-7", "GET /: both renderings serialise the whole frame; the stream is Store::read(options) unmodified and unfiltered", r7),
     ("R-C13-6", "route specificity: each catch-all arm is dominated by the false edge of every more specific test of its method", r6),
 ]
